@@ -945,8 +945,9 @@ def semantic_add_linear(prog):
     from ..fold import Folder, Raised
     ci = prog.cls(LIN, "CNFLinear")
     fi = ci.methods["add_linear"]
-    methods = {k: v.node for k, v in ci.methods.items()}
-    base = prog.cls("cnfgen.formula.basecnf", "BaseCNF")
+    methods = {}
+    for c_ in reversed(prog.mro(ci)):                       # inherited methods too (add_clauses_from of BaseCNF)
+        methods.update({k: v.node for k, v in c_.methods.items()})
     n_checked = 0
     for n in range(0, 4):
         for signs in itertools.product([1, -1], repeat=n):
